@@ -34,6 +34,8 @@ func init() {
 			{Name: "clock-in-output", File: f, Old: "\tif genMain { // make classfile main func if need", New: "\tif genMain && time.Now().Unix() > 0 { // make classfile main func if need", Old2: "import (\n", New2: "import (\n\t\"time\"\n", Expect: "nondeterminism/cl.NewPackage:time.Now"},
 			{Name: "goroutine-load", File: f, Old: "\tfor _, load := range ctx.inits {\n\t\tload()\n\t}", New: "\tfor _, load := range ctx.inits {\n\t\tgo load()\n\t}", Expect: "nondeterminism/cl.NewPackage:go"},
 			{Name: "global-counter", File: f, Old: "\terr = ctx.complete()\n", New: "\terr = ctx.complete()\n\tnewPackageCount++\n", Old2: "func isOverloadFunc(", New2: "var newPackageCount int\n\nfunc isOverloadFunc(", Expect: "global-state/cl.newPackageCount"},
+			{Name: "params-cleared-in-place", File: f, Old: "\t\t\t\tt := *d.Type\n\t\t\t\tt.Params = &ast.FieldList{Opening: t.Params.Opening, Closing: t.Params.Closing}\n\t\t\t\tftyp = &t\n", New: "\t\t\t\td.Type.Params.List = nil\n", Expect: "ast-mutation/loadFunc:FieldList.List"},
+			{Name: "entry-scan-reads-recv", File: "cl/classfile.go", Old: "\t\t\tif d.Name.Name == entry {", New: "\t\t\tif d.Name.Name == entry && d.Recv == nil {", Expect: "ast-mutation/astEmptyEntrypoint:guard"},
 			{Name: "seen-always-inserted", File: "cl/stmt.go", Old: "\t\t\tif !haserr {\n\t\t\t\tseen[T] = citem\n\t\t\t}", New: "\t\t\tseen[T] = citem", Expect: "map-range/cl.compileTypeSwitchStmt:seen"},
 		},
 	})
@@ -109,6 +111,9 @@ func runC08(c *core.Check) {
 	c.Floor("map-range", 12)
 	// the nondeterminism census expects zero sites: keep a positive example that must match on every run
 	c08SelfTest(c)
+
+	// (2b) state kept in the input: stores into the fields of the source tree
+	c08ASTMutations(c, prog)
 
 	// (3) package-level state written from NewPackage
 	g := buildCG(c, prog, true) // CHA alone resolves every func() value to every func() in the program
@@ -690,4 +695,121 @@ func c08SelfTest(c *core.Check) {
 	s := types.NewFunc(token.NoPos, sp, "Index", types.NewSignatureType(nil, nil, nil, nil, nil, false))
 	c.Decide(c08SourceCall(f) != "" && c08SourceCall(r) != "" && c08SourceCall(s) == "", "nondeterminism", "census-self-test", token.NoPos,
 		"the source classifier recognises time.Now and math/rand.Intn and rejects strings.Index (the census of the compile path found no site)", "the source classifier is broken")
+}
+
+// c08Mutations: reviewed stores of package cl into the syntax tree it was given. A tree that is compiled twice in one
+// process (language servers, x/typesutil) must compile the same way the second time.
+var c08Mutations = map[string]string{
+	"astEmptyEntrypoint:File.Decls":        "appends the synthetic empty entry point once: guarded by a scan for a declaration of that name, and the scan reads no field that cl rewrites (checked below), so the second compilation finds the declaration it added",
+	"preloadGopFile:Ident.Name":            "renames the shadow entry to getEntrypoint(f), a function of the file alone: the same name every time",
+	"preloadFile:FuncDecl.Recv":            "a receiver-less function of a class file gets the class receiver; the second compilation sees an explicit receiver of the same class (guard: recv == nil || len(recv.List) == 0)",
+	"preloadFile:FuncDecl.IsClass":         "set together with the class receiver; stays true",
+	"preloadFile:OverloadFuncDecl.Recv":    "as for FuncDecl: only when the overload declaration has no receiver yet",
+	"preloadFile:OverloadFuncDecl.IsClass": "set together with the receiver; stays true",
+}
+
+func c08ASTMutations(c *core.Check, prog *core.Prog) {
+	pk := prog.Pkg("./cl")
+	if pk == nil {
+		return
+	}
+	info := pk.TypesInfo
+	written := map[string]bool{} // "FuncDecl.Recv"
+	n := 0
+	for _, fd := range core.AllFuncDecls(pk) {
+		if fd.Body == nil {
+			continue
+		}
+		ast.Inspect(fd.Body, func(m ast.Node) bool {
+			as, ok := m.(*ast.AssignStmt)
+			if !ok {
+				return true
+			}
+			for _, l := range as.Lhs {
+				var sel *ast.SelectorExpr
+				switch x := ast.Unparen(l).(type) {
+				case *ast.SelectorExpr:
+					sel = x
+				case *ast.IndexExpr:
+					sel, _ = ast.Unparen(x.X).(*ast.SelectorExpr)
+				}
+				if sel == nil {
+					continue
+				}
+				sl := info.Selections[sel]
+				if sl == nil {
+					continue
+				}
+				fv, ok := sl.Obj().(*types.Var)
+				if !ok || fv.Pkg() == nil || fv.Pkg().Path() != core.Mod+"/ast" {
+					continue
+				}
+				owner := namedOf(sl.Recv())
+				if owner == nil {
+					continue
+				}
+				// a store into a local value copy (`v := *expr; v.F = …`) does not touch the input
+				if id, isId := ast.Unparen(sel.X).(*ast.Ident); isId {
+					if v, isVar := info.ObjectOf(id).(*types.Var); isVar {
+						if _, isPtr := v.Type().(*types.Pointer); !isPtr {
+							continue
+						}
+					}
+				}
+				n++
+				field := owner.Obj().Name() + "." + fv.Name()
+				written[field] = true
+				key := core.FuncName(fd) + ":" + field
+				if why, ok := c08Mutations[key]; ok {
+					c.Ok("ast-mutation", key, as.Pos(), "reviewed: "+why)
+				} else {
+					c.Bad("ast-mutation", key, as.Pos(), "cl."+core.FuncName(fd)+" stores into "+field+" of the syntax tree it is compiling: the tree keeps that change, so compiling the same tree again in this process (x/typesutil, language servers) starts from a different input and can give different output or errors")
+				}
+			}
+			return true
+		})
+	}
+	c.Analysed("ast_field_stores_in_cl", n)
+	c.Floor("ast-mutation", 4)
+	// the guard of astEmptyEntrypoint reads nothing that cl rewrites
+	if fd := core.FindFuncDecl(pk, "astEmptyEntrypoint"); fd != nil {
+		var reads []string
+		ast.Inspect(fd.Body, func(m ast.Node) bool {
+			is, ok := m.(*ast.IfStmt)
+			if !ok {
+				return true
+			}
+			sets := false
+			ast.Inspect(is.Body, func(k ast.Node) bool {
+				if as, ok := k.(*ast.AssignStmt); ok && len(as.Lhs) == 1 && core.ExprStr(as.Lhs[0]) == "hasEntry" {
+					sets = true
+				}
+				return true
+			})
+			if !sets {
+				return true
+			}
+			ast.Inspect(is.Cond, func(k ast.Node) bool {
+				if sel, ok := k.(*ast.SelectorExpr); ok {
+					if sl := info.Selections[sel]; sl != nil {
+						if owner := namedOf(sl.Recv()); owner != nil && owner.Obj().Name() == "FuncDecl" {
+							reads = append(reads, "FuncDecl."+sel.Sel.Name)
+						}
+					}
+				}
+				return true
+			})
+			return true
+		})
+		bad := ""
+		for _, r := range reads {
+			if written[r] {
+				bad = r
+			}
+		}
+		c.Decide(len(reads) > 0 && bad == "", "ast-mutation", "astEmptyEntrypoint:guard", fd.Pos(), "the scan for an existing entry point reads "+strings.Join(reads, ", ")+", which cl never rewrites",
+			"the scan that decides whether the synthetic entry point must be appended reads "+bad+", a field cl itself rewrites during compilation (preloadFile): on the second compilation of the same tree the declaration appended the first time is no longer recognised and another one is appended — duplicate methods in the output")
+	} else {
+		c.Bad("anchor", "cl.astEmptyEntrypoint", 0, "not found")
+	}
 }
